@@ -2,7 +2,7 @@
 C01 — property theorems (statements, short proofs from the lemmas, non-vacuity examples).
 Helper lemmas: Proofs.lean (arithmetic, decision), Run.lean (histories + ghosts), Window.lean (rolling window).
 -/
-import GoZero.C01.Run
+import GoZero.C01.RunWindow
 namespace GoZero.C01
 
 /-! ## 1. admission law -/
@@ -158,5 +158,47 @@ example : (((List.replicate 12 Mark.fail).foldl (fun b m => b.mark 9 m) (Breaker
   · rw [hh, totalFailureRatio_eq]
     have : ((12 + 1 : Nat) : Rat) = 13 := by simp
     simp only [this]; grind
+
+/-! ## 5. "the calls recorded in the preceding 10 s window" -/
+
+/-- **The window the breaker decides on is the log of the calls of the preceding 40 aligned 250 ms buckets.**
+After any finite history (any entry points, outcomes, draws, gaps from 0 to several windows), at any time
+`now` not before the last event, the buckets `history()` reduces over are, oldest first, exactly the aggregates
+of all marks ever recorded whose time falls into the aligned bucket number `idx(now) − 39 + i`
+(`idx(t) = ⌊(t − t0)/250ms⌋`); older calls are not counted, none inside is missing.  (`Lget L c a` is the
+log bucket number `c − a`, empty before the creation of the breaker; the `span` youngest buckets are empty
+because nothing was recorded since `lastTime`, and are skipped.) -/
+theorem window_is_log (t0 : Nat) (ops : List Op) (now : Nat) (hnow : ((Sys.init t0).run ops).now ≤ now) :
+    ((Sys.init t0).run ops).b.rw.visible now =
+      (List.range (40 - ((Sys.init t0).run ops).b.rw.span now)).map fun i =>
+        Lget (logBucket t0 ((Sys.init t0).run ops).log) (bucketIdx t0 now) (39 - i) := by
+  obtain ⟨cur, hr, hl, ht⟩ := Sys.winInv_run t0 ops
+  have hv := visible_spec _ t0 cur _ hr now (Nat.le_trans hl hnow)
+  have hlt := hr.lt
+  have hidx : bucketIdx t0 now = cur + (now - ((Sys.init t0).run ops).b.rw.lastTime) / 250000000 := by
+    unfold bucketIdx intervalNs; omega
+  rw [hv, hidx]
+
+/-- the totals the admission law is stated on are sums over those log buckets -/
+theorem history_totals (b : Breaker) (now : Nat) :
+    (b.history now).total = (sumBuckets (b.rw.visible now)).sum ∧
+    (b.history now).accepts = (sumBuckets (b.rw.visible now)).succ := by
+  have := foldl_reduce_sums (b.rw.visible now) {}
+  simpa [Breaker.history, summarize] using this
+
+/-- every log bucket satisfies `Sum = Success + Failure + Drop`: "non-accepted" is failures plus rejections -/
+theorem logBucket_balanced (t0 : Nat) (log : List (Nat × Mark)) (j : Nat) :
+    (logBucket t0 log j).sum = (logBucket t0 log j).succ + (logBucket t0 log j).fail + (logBucket t0 log j).drop := by
+  induction log with
+  | nil => rfl
+  | cons e rest ih =>
+    simp only [logBucket]
+    split
+    · exact bucket_add_balanced _ _ ih
+    · exact ih
+
+/-- non-vacuity: three failures at t0 = 5, 10 s − 1 ns later they are still visible, 1 ns later they are gone -/
+example : ((((Sys.init 5).run (List.replicate 3 (Op.resolve .fail))).b.history (5 + 9999999999)).total = 3
+    ∧ (((Sys.init 5).run (List.replicate 3 (Op.resolve .fail))).b.history (5 + 10000000000)).total = 0) := by decide
 
 end GoZero.C01
